@@ -5,6 +5,7 @@ import NgVerif.Model.Morton
 import NgVerif.Model.Routing
 import NgVerif.Model.Shard
 import NgVerif.Model.CsegDecode
+import NgVerif.Model.Raw
 /-
   ngdriver: line protocol. One request per line on stdin (space-separated tokens),
   one reply per line on stdout. Unknown / malformed requests answer `bad-request`.
@@ -169,6 +170,24 @@ def handle (toks : List String) : String :=
       | .ok d => "ok " ++ showNatList d
       | .error e => "err " ++ showErr e
     | _, _, _, _ => "bad-request"
+  | ["raw-decode", isz, count, file] =>
+    match parseNat isz, parseNat count, hexToBytes file with
+    | some i, some n, some f =>
+      match Raw.decode i n f with
+      | .ok d => "ok " ++ showNatList d
+      | .error _ => "err format"
+    | _, _, _ => "bad-request"
+  | ["raw-encode", isz, data] =>
+    match parseNat isz, parseList parseNat data with
+    | some i, some d => bytesToHex (Raw.encode i d)
+    | _, _ => "bad-request"
+  | ["jpeg-wrapper", o, l, rgb, ld, px, nch, count] =>
+    match parseNat o, parseNat l, parseNat rgb, parseNat ld, parseNat px, parseNat nch, parseNat count with
+    | some o, some l, some rgb, some ld, some px, some nch, some count =>
+      match Raw.jpegWrapper ⟨o == 1, l == 1, rgb == 1, ld == 1, px⟩ nch count with
+      | .ok n => s!"ok {n}"
+      | .error _ => "err format"
+    | _, _, _, _, _, _, _ => "bad-request"
   | _ => "bad-request"
 
 partial def loop (h : IO.FS.Stream) (out : IO.FS.Stream) : IO Unit := do
